@@ -355,6 +355,9 @@ type dictOps struct {
 	decodeHm  func(tc *tboc.Cell) ([]dict.Entry, error)
 	decodeAug func(tc *tboc.Cell) ([]dict.Entry, error)
 	get       func(h any, key []bool) (dict.Value, bool)
+	// tlb.ProveKeyInHashmap[V] on the root cell of a Hashmap: the lookup that works on the cell tree.
+	// usable=false: no prover could be made for the tree (the Merkle machinery is C18's subject)
+	prove func(root *tboc.Cell, key []bool) (v dict.Value, found, usable bool)
 	// Items() of a dictionary obtained from decodeE, any time later
 	items   func(h any) []dict.Entry
 	put     func(h any, key []bool, v dict.Value)
@@ -424,6 +427,24 @@ func mkOps[K keyC, V any](kname string, va *valAd[V]) *dictOps {
 				return dict.Value{}, false
 			}
 			return va.abs(v), true
+		},
+		prove: func(root *tboc.Cell, key []bool) (dict.Value, bool, bool) {
+			pv, err := tboc.NewMerkleProver(root)
+			if err != nil {
+				return dict.Value{}, false, false
+			}
+			ks := tboc.NewBitString(len(key))
+			for _, b := range key {
+				if err := ks.WriteBit(b); err != nil {
+					return dict.Value{}, false, false
+				}
+			}
+			root.ResetCounters()
+			v, _, err := tlb.ProveKeyInHashmap[V](pv, root, ks)
+			if err != nil {
+				return dict.Value{}, false, true
+			}
+			return va.abs(v), true, true
 		},
 		items: func(h any) []dict.Entry {
 			items := h.(*tlb.HashmapE[K, V]).Items()
@@ -712,6 +733,9 @@ func runCase(o *dictOps, idx int, shape string) {
 	if !ok {
 		return
 	}
+	if !proveLookups(c, model, first, "own-encoding", r.Fork("prove", 0), fp) {
+		return
+	}
 	// the same cell tree after a trip through the wire format (equal cells exist once in a parsed bag)
 	if sz > 1 && (equalVals || r.Chance(1, 4)) {
 		var cs []*tboc.Cell
@@ -841,6 +865,7 @@ func runCase(o *dictOps, idx int, shape string) {
 		variants = variants[:1]
 	}
 	var foreignDec any
+	proveAt := r.Intn(len(variants)) // one foreign variant per case also answers cell-level lookups
 	for vi, variant := range variants {
 		fr := r.Fork("foreign", vi)
 		b := &dict.Builder{N: n}
@@ -890,6 +915,9 @@ func runCase(o *dictOps, idx int, shape string) {
 			foreignDec = fd
 		}
 		if !countLeaves(c, model, tc, "foreign:"+variant, fp) {
+			return
+		}
+		if vi == proveAt && !proveLookups(c, model, tc, "foreign:"+variant, r.Fork("prove", 1+vi), fp) {
 			return
 		}
 	}
@@ -1316,7 +1344,7 @@ func main() {
 		tier = os.Args[1]
 	}
 	R = mon.Start("C05", tier)
-	R.Rule = "one case = one (key type, value type, key-set shape) dictionary: the Go-map model is built first; tongo builds it by Put in all/20 insertion orders and by NewHashmapE (root hashes must coincide), the reference reader (ref/dict) reads tongo's cell tree and must return the model, tongo decodes its own output and 6 reference-written variants (canonical, forced short/long/same labels, two random mixes; delivered in memory or through a BOC) and must list the model in ascending key-bit order; Get for all present (<=300) and 50 absent keys; Put updates/inserts on a decoded dictionary, re-encoded and read back by the reference; HashmapAugE written by the reference decoded by tongo. One case in six gives all keys the same value (plus value type Unit = no bits at all), decoded also after a trip through a BOC (equal sibling sub-trees are one cell there). NewHashmapE also from keys in arbitrary order. Plain Hashmap / HashmapAug IN LINE: the reference-written root (all label forms) spliced between random bits and 0..2 references of neighbouring fields, tongo reads the leading fields, the dictionary at the cursor, then the trailing fields; tongo's Marshal(NewHashmap) in line read by the reference; tlb.LibDescr alone and inside HashmapE 256 LibDescr; decoding into a used plain Hashmap / HashmapAug variable; deriving operations leave the decoded dictionary intact: tlb.ConfigParams decoded from a reference-written cell, then a random script of CloneKeepingSubsetOfKeys (random / non-prefix / suffix / empty / all subsets, absent and repeated numbers), Put on a clone, Put on the original, Marshal of the original, with the original and every clone compared with their own models (Items, Keys/Values, Get) after every step; Items() again after the lookups and after Marshal of a decoded HashmapE; BlockExtra.InMsgDescrLength/OutMsgDescrLength (second label parser) = number of entries for 256-bit keys. evaluations = comparisons made; non-trivial = non-empty dictionary; distinct = (sub-check, key type, value type, root hash of the encoding[, label-form mix | update script])"
+	R.Rule = "one case = one (key type, value type, key-set shape) dictionary: the Go-map model is built first; tongo builds it by Put in all/20 insertion orders and by NewHashmapE (root hashes must coincide), the reference reader (ref/dict) reads tongo's cell tree and must return the model, tongo decodes its own output and 6 reference-written variants (canonical, forced short/long/same labels, two random mixes; delivered in memory or through a BOC) and must list the model in ascending key-bit order; Get for all present (<=300) and 50 absent keys; Put updates/inserts on a decoded dictionary, re-encoded and read back by the reference; HashmapAugE written by the reference decoded by tongo. One case in six gives all keys the same value (plus value type Unit = no bits at all), decoded also after a trip through a BOC (equal sibling sub-trees are one cell there). NewHashmapE also from keys in arbitrary order. Plain Hashmap / HashmapAug IN LINE: the reference-written root (all label forms) spliced between random bits and 0..2 references of neighbouring fields, tongo reads the leading fields, the dictionary at the cursor, then the trailing fields; tongo's Marshal(NewHashmap) in line read by the reference; tlb.LibDescr alone and inside HashmapE 256 LibDescr; decoding into a used plain Hashmap / HashmapAug variable; deriving operations leave the decoded dictionary intact: tlb.ConfigParams decoded from a reference-written cell, then a random script of CloneKeepingSubsetOfKeys (random / non-prefix / suffix / empty / all subsets, absent and repeated numbers), Put on a clone, Put on the original, Marshal of the original, with the original and every clone compared with their own models (Items, Keys/Values, Get) after every step; Items() again after the lookups and after Marshal of a decoded HashmapE; tlb.ProveKeyInHashmap as one more lookup on the cell tree of the own encoding and of one foreign variant per case (dictionaries up to 300 entries: 3 present keys must be found with their values, up to 8 absent keys - a present key with one bit flipped at the end / inside the leaf label / anywhere, random - must not be found); BlockExtra.InMsgDescrLength/OutMsgDescrLength (second label parser) = number of entries for 256-bit keys. evaluations = comparisons made; non-trivial = non-empty dictionary; distinct = (sub-check, key type, value type, root hash of the encoding[, label-form mix | update script])"
 	R.Assume("reference dictionary reader/writer harness/ref/dict is correct: pinned at start-up by reading every dictionary of the repository's real blocks/config proofs (keys repeat inside their values) and by re-writing them to the same root hash")
 	R.Assume("AddressWithWorkchain keys are drawn with workchains that fit the type's int8 field (sign-extended to the 32-bit key field)")
 	R.Assume("Grams values stay below 2^63 (larger amounts are property C03's subject)")
